@@ -31,6 +31,14 @@ def main():
     a = ap.parse_args()
     seed = int(os.environ.get("VERIF_SEED", "0") or 0)
     tier = a.tier if a.tier in ("quick", "thorough") else "quick"
+    # watchdog: a run that takes this long is an infrastructure failure (exit 2), never a verdict
+    import signal
+
+    def on_timeout(signum, frame):
+        print("[%s] timed out" % a.prop, flush=True)
+        os._exit(2)
+    signal.signal(signal.SIGALRM, on_timeout)
+    signal.alarm(int(os.environ.get("VERIF_TIMEOUT_S", "1200" if tier == "quick" else "5400")))
     try:
         import numpy as np
         np.seterr(all="ignore")
